@@ -13,8 +13,9 @@ SIZES = {
     "mset": (250, 3000),
     "xml": (250, 3000),
     "neareq": (1500, 15000),
+    "msetdup": (200, 2500),
 }
-DEFAULT_KINDS = ["small", "random", "skewed", "mset", "xml"]
+DEFAULT_KINDS = ["small", "random", "skewed", "mset", "msetdup", "xml"]
 
 
 def innermost_class(ev, step):
@@ -64,7 +65,8 @@ def run_script_property(prop, level, kinds=None, extra_rule="", mc=True, signatu
         v = e[prop]
         if v["step"]:
             cls = innermost_class(tr["ev"], v["step"])
-            sig = {"clause": v["clause"], "edit": cls, "strategy": tr["O"]["strategy"], "lists": tr["O"]["lists"]}
+            sig = {"clause": v["clause"], "edit": cls, "strategy": tr["O"]["strategy"], "lists": tr["O"]["lists"],
+                   "kind": c[0]}
             if signature_extra:
                 sig.update(signature_extra(tr, v, cls))
             msg = "%s: clause '%s' broken at event %d (%s) in a %s frame; options %s; from %s to %s" % (
